@@ -17,6 +17,9 @@
                               not possible; STARTTLS ⇔ configured, plaintext, not authenticated
     step_same_input           table entries the harness cannot distinguish by input coincide (justifies the
                               de-duplication of the exhaustive tie)
+    backend_view              with the calls marked as the outcome makes the backend refuse them, no selected-state
+                              call (Unselect, Expunge, Search, Fetch, Store, Copy, Move) is ever made while the backend's
+                              own Select/Unselect bookkeeping says "no mailbox open"
     legacy_select_counterexample   the shipped handleSelect left the mailbox selected when Unselect failed
   Validated by the oracle only: that the Go code is this model (exhaustive tie over the table on every run);
   response classes NO/BAD are part of the tie, not of the property.
@@ -25,6 +28,7 @@
 import GoImap.Model.ServerSM
 import GoImap.Spec.ServerSM
 import GoImap.Lemmas.ServerSM
+import GoImap.Lemmas.ServerSMBackend
 namespace GoImap.C05
 open GoImap.ServerSM GoImap.ServerSpec GoImap.ServerLemmas
 
@@ -136,6 +140,13 @@ theorem step_same_input (cfg : Cfg) (c : Conn) (k : CmdKind) :
     (hasPrincipal k = false → step cfg c k .backendErr = step cfg c k .backendOk) ∧
     (isUnknown k = true → step cfg c k .parseErr = step cfg c k .backendOk) :=
   ⟨step_no_aux cfg c k, step_no_principal cfg c k, step_unknown_parse cfg c k⟩
+
+/-- The connection state never runs ahead of the backend: following the calls of any history — a
+    successful Select opens a mailbox, a successful Unselect or Unauthenticate releases it, a refused
+    call changes nothing — no selected-state operation reaches a backend that has no mailbox open. -/
+theorem backend_view (cfg : Cfg) (h : Hist) : bviewTrace cfg (greet cfg) false h = none := by
+  apply bviewTrace_none
+  cases hp : cfg.pre <;> simp [greet, hp, St.isSelected]
 
 /-- Before the repair: SELECT answered NO because the backend's Unselect failed, yet the connection
     stayed in the selected state, where the RFC diagram says authenticated. -/
